@@ -47,11 +47,11 @@ def native_compare(model='single_fc_bias.tflite', recipe='default_af32w8float_re
     from ai_edge_quantizer import quantizer
     from ai_edge_quantizer.utils import tfl_interpreter_utils as tiu
     from tensorflow.lite.tools import flatbuffer_utils as fu
-    path = os.path.join(core.PKG, 'tests/models', model); rec = os.path.join(core.PKG, 'recipes', recipe)
+    path = generated_model(model) if model.startswith('gen:') else os.path.join(core.PKG, 'tests/models', model); rec = os.path.join(core.PKG, 'recipes', recipe)
     def q(thr):
         if thr is None: os.environ.pop('AI_EDGE_QUANTIZER_VERIF_LARGE_MODEL_THRESHOLD', None)
         else: os.environ['AI_EDGE_QUANTIZER_VERIF_LARGE_MODEL_THRESHOLD'] = str(thr)
-        qt = quantizer.Quantizer(path, rec); res = None
+        qt = quantizer.Quantizer(bytearray(path) if isinstance(path, bytes) else path, rec); res = None
         if qt.need_calibration:
             itp = tiu.create_tfl_interpreter(path); det = itp.get_signature_runner().get_input_details()
             res = qt.calibrate([{n: np.ones(d['shape'], dtype=d['dtype']) * 0.5 for n, d in det.items()}])
@@ -95,7 +95,42 @@ def native_compare(model='single_fc_bias.tflite', recipe='default_af32w8float_re
     except Exception as e: bad.append(f'interpreter failed on one of the forms: {type(e).__name__}: {str(e)[:120]}')
     return dict(confirmed=bool(bad), inputs=dict(model=model, recipe=recipe, threshold=-1), violated=bad, observed=dict(small_len=len(small), large_len=len(large), data_buffers=len(regions)))
 
-CASES = [('single_fc_bias.tflite', 'default_af32w8float_recipe.json'), ('conv_fc_mnist.tflite', 'default_a8w8_recipe.json'), ('conv_fc_mnist.tflite', 'default_af32w4float_recipe.json'),
+def generated_model(name):
+    """in-memory float models whose constants vary in what the offset computation depends on: 'gen:dup' = two FULLY_CONNECTED layers with byte-identical
+    weights and byte-identical all-zero biases (distinct buffers, equal contents); 'gen:odd' = constants of 1-, 3-, 5- and 17-element length (sizes not multiples of 16)"""
+    from ai_edge_litert import schema_py_generated as S
+    from tensorflow.lite.tools import flatbuffer_utils as fu
+    m = S.ModelT(); m.version = 3; m.description = 'c16'; m.buffers = [S.BufferT()]; m.operatorCodes = []; sg = S.SubGraphT(); sg.name = b'main'; sg.tensors = []; sg.operators = []; m.subgraphs = [sg]
+    def tensor(nm, shape, data=None):
+        b = S.BufferT()
+        if data is not None: b.data = np.frombuffer(np.asarray(data, dtype=np.float32).tobytes(), dtype=np.uint8)
+        m.buffers.append(b); t = S.TensorT(); t.name = nm.encode(); t.shape = list(shape); t.buffer = len(m.buffers) - 1; t.type = 0; sg.tensors.append(t); return len(sg.tensors) - 1
+    def opcode(code):
+        for i, oc in enumerate(m.operatorCodes):
+            if oc.builtinCode == code: return i
+        oc = S.OperatorCodeT(); oc.builtinCode = code; oc.deprecatedBuiltinCode = min(code, 127); oc.version = 1; m.operatorCodes.append(oc); return len(m.operatorCodes) - 1
+    def fc(x, w, b, y):
+        o = S.OperatorT(); o.opcodeIndex = opcode(S.BuiltinOperator.FULLY_CONNECTED); o.inputs = [x, w, b]; o.outputs = [y]
+        o.builtinOptionsType = S.BuiltinOptions.FullyConnectedOptions; o.builtinOptions = S.FullyConnectedOptionsT(); sg.operators.append(o)
+    if name == 'gen:dup':
+        W = (np.arange(16, dtype=np.float32).reshape(4, 4) - 7.5) / 9.0
+        x = tensor('x', [1, 4]); h = tensor('h', [1, 4]); y = tensor('y', [1, 4])
+        fc(x, tensor('w0', [4, 4], W), tensor('b0', [4], np.zeros(4)), h); fc(h, tensor('w1', [4, 4], W), tensor('b1', [4], np.zeros(4)), y)
+    elif name == 'gen:odd':
+        x = tensor('x', [1, 1]); cur = x
+        for k, n in enumerate((3, 5, 17, 1)):
+            prev_n = sg.tensors[cur].shape[1]; nxt = tensor(f't{k}', [1, n])
+            fc(cur, tensor(f'w{k}', [n, prev_n], (np.arange(n * prev_n, dtype=np.float32).reshape(n, prev_n) - k) / 7.0), tensor(f'b{k}', [n], np.arange(n, dtype=np.float32) / 3.0), nxt); cur = nxt
+        y = cur
+    else: raise ValueError(name)
+    sg.inputs = [x]; sg.outputs = [y]
+    sd = S.SignatureDefT(); sd.signatureKey = b'serving_default'; sd.subgraphIndex = 0; sd.inputs = []; sd.outputs = []
+    for lst, nm, t in ((sd.inputs, b'x', x), (sd.outputs, b'y', y)):
+        tm = S.TensorMapT(); tm.name = nm; tm.tensorIndex = t; lst.append(tm)
+    m.signatureDefs = [sd]
+    return bytes(fu.convert_object_to_bytearray(m))
+
+CASES = [('gen:dup', 'default_af32w8float_recipe.json'), ('gen:odd', 'default_a8w8_recipe.json'), ('single_fc_bias.tflite', 'default_af32w8float_recipe.json'), ('conv_fc_mnist.tflite', 'default_a8w8_recipe.json'), ('conv_fc_mnist.tflite', 'default_af32w4float_recipe.json'),
          ('single_fc_bias.tflite', 'dynamic_wi8_afp32_recipe.json'), ('embedding_lookup.tflite', 'default_af32w8float_recipe.json'), ('two_signatures.tflite', 'default_af32w8float_recipe.json')]
 def search(label=None):
     for m, r in CASES:
@@ -115,7 +150,7 @@ def run(rep):
     lemmas(rep); rep.extend(path_obligations(rep))
     # bounded stand-in through the public API with the threshold hook
     cases = fails = 0; first = None
-    for m, r in (CASES if rep.tier == 'thorough' else CASES[:4]):
+    for m, r in (CASES if rep.tier == 'thorough' else CASES[:5]):
         try: rp = native_compare(m, r); cases += 1
         except Exception as e: rep.notes.append(f'stand-in case {m}/{r} could not run: {type(e).__name__}: {str(e)[:100]}'); continue
         if rp['confirmed']: fails += 1; first = first or rp
@@ -127,7 +162,7 @@ def run(rep):
         if a not in src: rep.canary(name, False, 'mutation site not found (stale canary)'); continue
         try:
             E = pyvc.run_function(core.Fn(MM, 'ModelModifier._serialize_large_model', src_override=src.replace(a, b)), serialize.SerializeLarge())
-            bad = [ob.label for ob, st, dt, det, mv in pyvc.decide_parallel(E, E.spec, timeout=20000) if st != 'proved']; rep.canary(name, bool(bad), str(bad[:3]))
+            bad = [ob.label for ob, st, dt, det, mv in pyvc.decide_parallel(E, E.spec, timeout=20000, canary=True) if st != 'proved']; rep.canary(name, bool(bad), str(bad[:3]))
         except pyvc.Unsupported as e: rep.canary(name, True, str(e))
     rep.assume('ASSUMED CONTRACT of the dependency: len(flatbuffer_utils.convert_object_to_bytearray(m)) is independent of the values of non-zero buffer offset/size fields, and parsing ignores bytes after the flatbuffer root; '
                'its applicability (fields non-zero at both calls) is a discharged call-site obligation')
